@@ -1,5 +1,6 @@
 import AnonCreds.Props.C17
 import AnonCreds.Proofs.CreatePlan
+import AnonCreds.Props.C02
 /-
 C03 — completeness of honest presentations. What is proved here is the algebra every acceptance
 rests on: for each sub-protocol the verifier's recomputation from the honest prover's responses
@@ -124,5 +125,46 @@ example : AC.CreatePlan.Honest
   sigCred := by intro id d l n h; simp at h; obtain ⟨rfl, -⟩ := h; exact ⟨_, rfl⟩
   memCred := by intro id ref c h; simp at h
   rangeCred := by intro id ref sid c lo hi h; simp at h; obtain ⟨-, -, rfl, -⟩ := h; exact ⟨_, rfl⟩
+
+/-! ### … with the disclosed-claims check discharged (C02 `honest_report_passes_check`) -/
+
+section unconditional
+open AC.Verify AC.Create AC.CreatePlan AC.C02
+
+/-- the map the honest prover reports for a credential with a claim per label -/
+def honestRep (disclosed labels : List String) (claims : List ClaimData) : List (String × ClaimData) :=
+  (revealedIdx (fullVector disclosed labels)).filterMap fun i => match labels[i]?, claims[i]? with
+    | some l, some c => some (l, c)
+    | _, _ => none
+
+/-- the index → scalar map of the honest signature proof -/
+def honestInner {F : Type} (enc : ClaimData → F) (disclosed labels : List String) (claims : List ClaimData) : Inner F :=
+  (revealedIdx (fullVector disclosed labels)).filterMap fun i => (claims[i]?).map fun c => (i, enc c)
+
+/-- **Plan-level completeness, unconditionally.** An honest (credentials, schema) pair in which every
+signature statement's issuer schema has distinct labels and its credential carries one well-typed claim per
+label, with the presentation reporting what the honest prover reports: whatever `create` emits passes the
+whole plan stage of `verify`, the disclosed-claims check included. -/
+theorem honest_presentation_passes_plan {F : Type} [DecidableEq F] (enc : ClaimData → F)
+    (types : String → List ClaimType) (inner : String → Inner F)
+    (reported : List (String × List (String × ClaimData)))
+    (creds : List (String × CredI)) (stmts : List CStmt) (ps : List ProofI)
+    (hon : Honest creds stmts)
+    (hcred : ∀ id d l n, CStmt.sig id d l n ∈ stmts →
+      l.Nodup ∧ d.Nodup ∧ ∃ claims : List ClaimData,
+        claims.length = l.length ∧ (types id).length = l.length ∧
+        (∀ (i : Nat) (c : ClaimData) (t : ClaimType), claims[i]? = some c → (types id)[i]? = some t → c.type = t) ∧
+        reported.lookup id = some (honestRep d l claims) ∧ inner id = honestInner enc d l claims)
+    (hcreate : createProofs creds stmts = some ps) :
+    planStage enc (stmts.map (toV types)) (toPres inner reported ps) = none := by
+  apply create_passes_verify_plan enc types inner reported creds stmts ps hon _ hcreate
+  intro id d l n hst
+  obtain ⟨hl, hd, claims, hn, ht, hty, hrep, hin⟩ := hcred id d l n hst
+  refine ⟨_, hrep, ?_⟩
+  rw [hin]
+  exact honest_report_passes_check enc id d l (types id) claims hl hd hn ht hty
+
+
+end unconditional
 
 end AC.C03
